@@ -23,7 +23,7 @@ struct World {
     mirrors: Vec<(usize, usize)>,
 }
 
-fn build(with_mirrors: bool, with_replica: bool, mirror_targets: &[usize]) -> Result<World, String> {
+fn build(with_mirrors: bool, with_replica: bool, mirror_targets: &[usize], prewarm: bool) -> Result<World, String> {
     let mut cell = Cell::new();
     let p = cell.add_mock("db.s0.primary.0");
     let mut servers = vec![cell.server(p, "primary")];
@@ -50,6 +50,12 @@ fn build(with_mirrors: bool, with_replica: bool, mirror_targets: &[usize]) -> Re
     let mut pool = PoolCfg::single("db", USER, PASS, 2, servers);
     pool.shards[0].mirrors = mcfg;
     pool.set("connect_timeout", "300");
+    if prewarm {
+        // statements the pooler itself runs on every new server connection: the mirror sees the
+        // mirrored server's copies of them and must see nothing of its own
+        pool.set("query_parser_enabled", "true"); // plugins are only accepted with the parser on
+        pool.raw_tables = "\n[pools.db.plugins]\n\n[pools.db.plugins.prewarmer]\nenabled = true\nqueries = [\"SELECT 'warm-1'\", \"SELECT 'warm-2'\"]\n".to_string();
+    }
     cfg.pools.push(pool);
     cell.start_pgcat(&cfg, &StartOpts::default())
         .map_err(|e| format!("start: {:?}", e))?;
@@ -144,7 +150,11 @@ fn scenario(seed: u64, rep: &Report, isolated: bool, nominated: &std::sync::Mute
     let clients = rng.range(1, 3) as usize;
     let reqs = rng.range(8, 20) as usize;
     // ---- run B: mirrors + faults
-    let wb = build(true, with_replica, &targets)?;
+    let prewarm = rng.chance(1, 2);
+    if prewarm {
+        rep.count("scenarios_with_prewarmer", 1);
+    }
+    let wb = build(true, with_replica, &targets, prewarm)?;
     let stop = Arc::new(AtomicBool::new(false));
     let ctls: Vec<_> = wb.mirrors.iter().map(|(m, _)| wb.cell.mocks[*m].ctl.clone()).collect();
     let stop2 = stop.clone();
@@ -213,7 +223,7 @@ fn scenario(seed: u64, rep: &Report, isolated: bool, nominated: &std::sync::Mute
     let rb = rb?;
     sleep_ms(150);
     // ---- run A: same program, no mirrors
-    let wa = build(false, with_replica, &[])?;
+    let wa = build(false, with_replica, &[], prewarm)?;
     let ra = run_program(&wa.cell.addr(), seed, clients, reqs)?;
     // ---- differential comparison
     for (ca, cb) in ra.iter().zip(rb.iter()) {
@@ -332,7 +342,9 @@ fn scenario(seed: u64, rep: &Report, isolated: bool, nominated: &std::sync::Mute
                         "{} sid={} received a message sequence that is not an in-order copy of whole messages of any one connection of the mirrored server; first non-matching: {}",
                         labels[*b], sid, alien.map(|m| printable(m, 100)).unwrap_or("(order differs)".into())
                     ),
-                    json!({"seed": seed, "mirror_seq": seq.iter().take(12).map(|m| printable(m, 60)).collect::<Vec<_>>()}),
+                    json!({"seed": seed, "prewarm": prewarm, "mirror_seq": seq.iter().take(12).map(|m| printable(m, 60)).collect::<Vec<_>>(),
+                           "first_alien_message_was_received_by": alien.map(|a| by_sess.iter().filter(|(_, v)| v.iter().any(|m| **m == **a)).map(|(k, _)| format!("{} sid={}", labels[k.0], k.1)).collect::<Vec<_>>()),
+                           "pgcat_log_tail": wb.cell.pg.as_ref().map(|p| p.log_tail(12))}),
                 );
             }
         }
